@@ -409,19 +409,42 @@ func loopBound(f *ssa.Function, phiName string) (int64, bool) {
 	return res, found
 }
 
+// loopRoles names the loop variables of a level walk by what their step does,
+// not by how the source calls them: size steps to ceil(size/2), offset advances
+// by the size, index halves.
+func loopRoles(f *ssa.Function) (size, offset, index string, steps map[string]string) {
+	steps = loopSteps(f)
+	for name, st := range steps {
+		if st == "halfup(phi:"+name+")" {
+			size = name
+		}
+		if st == "half(phi:"+name+")" {
+			index = name
+		}
+	}
+	for name, st := range steps {
+		if size != "" && (st == "phi:"+name+"+phi:"+size || st == "phi:"+size+"+phi:"+name) {
+			offset = name
+		}
+	}
+	return
+}
+
 func c19Progression(r *engine.Run, verify, build, prove, size *ssa.Function) {
 	const rule = "AGREE-progression"
-	ss, bs, ps, vs := loopSteps(size), loopSteps(build), loopSteps(prove), loopSteps(verify)
-	want := "halfup(phi:%s)"
-	r.Check(ss["ll"] == fmt.Sprintf(want, "ll") && bs["plsize"] == fmt.Sprintf(want, "plsize") && ps["plsize"] == fmt.Sprintf(want, "plsize"), rule, "level size step", r.P.Pos(size.Pos()),
-		"all three walks step to ceil(size/2)", fmt.Sprintf("the level walks disagree on the next level size: computeSize %q, ComputeTree %q, GetPathByIndex %q", ss["ll"], bs["plsize"], ps["plsize"]))
-	r.Check(bs["pl0"] == "phi:pl0+phi:plsize" && ps["pl0"] == "phi:pl0+phi:plsize", rule, "level offset step", r.P.Pos(build.Pos()),
-		"builder and prover advance the level offset by the level size", fmt.Sprintf("builder and prover disagree on the next level offset: %q vs %q", bs["pl0"], ps["pl0"]))
-	r.Check(vs["idx"] == "half(phi:idx)" && ps["idx"] == "half(phi:idx)", rule, "index halving", r.P.Pos(verify.Pos()),
-		"verifier and prover halve the index alike", fmt.Sprintf("verifier and prover disagree on the parent index: %q vs %q", vs["idx"], ps["idx"]))
-	sb, ok1 := loopBound(size, "ll")
-	bb, ok2 := loopBound(build, "plsize")
-	pb, ok3 := loopBound(prove, "plsize")
+	sSize, _, _, ss := loopRoles(size)
+	bSize, bOff, _, bs := loopRoles(build)
+	pSize, pOff, pIdx, ps := loopRoles(prove)
+	_, _, vIdx, vs := loopRoles(verify)
+	r.Check(sSize != "" && bSize != "" && pSize != "", rule, "level size step", r.P.Pos(size.Pos()),
+		"all three walks step to ceil(size/2)", fmt.Sprintf("the level walks disagree on the next level size (a loop variable stepping to ceil(x/2) is expected in each): computeSize %v, ComputeTree %v, GetPathByIndex %v", ss, bs, ps))
+	r.Check(bOff != "" && pOff != "", rule, "level offset step", r.P.Pos(build.Pos()),
+		"builder and prover advance the level offset by the level size", fmt.Sprintf("builder and prover disagree on the next level offset (offset + level size expected in both): %v vs %v", bs, ps))
+	r.Check(vIdx != "" && pIdx != "", rule, "index halving", r.P.Pos(verify.Pos()),
+		"verifier and prover halve the index alike", fmt.Sprintf("verifier and prover disagree on the parent index (a variable stepping to x/2 expected in both): %v vs %v", vs, ps))
+	sb, ok1 := loopBound(size, sSize)
+	bb, ok2 := loopBound(build, bSize)
+	pb, ok3 := loopBound(prove, pSize)
 	r.Check(ok1 && ok2 && ok3 && sb == bb && pb == bb+1, rule, "loop bounds", r.P.Pos(prove.Pos()),
 		fmt.Sprintf("size walk and builder continue while size > %d, the prover (leaf level handled before its loop) while size > %d", bb, pb),
 		fmt.Sprintf("the level walks stop at different sizes (computeSize > %d, ComputeTree > %d, GetPathByIndex > %d; expected equal, equal, +1): the path has a different number of elements than the tree has levels", sb, bb, pb))
